@@ -197,6 +197,14 @@ pub fn differential(kind: &str, idx: u64, p: &Program, tag: &str, use_reference:
 pub fn c02_pins() -> Vec<Pin> {
     vec![
         Pin {
+            name: "removed_lda_flags",
+            src: "unsigned char b, c, r; void main() { b = 0; Y = c; b = 0; b = 0; if (b) goto L1; b = 3; L1: ; r = b; }",
+            init: &[("c", 129)],
+            x: 0,
+            y: 0,
+            expect: &[("r", 3)],
+        },
+        Pin {
             name: "inline_asm_register_knowledge",
             src: "unsigned char a, b; void main() { a = 5; asm(\"LDA #0 ;@I1\", 2); b = 5; }",
             init: &[],
